@@ -1,0 +1,20 @@
+//go:build verif
+// +build verif
+
+package table
+
+import (
+	"github.com/grafana/carbon-relay-ng/aggregator"
+	"github.com/grafana/carbon-relay-ng/matcher"
+	"github.com/grafana/carbon-relay-ng/rewriter"
+	"github.com/grafana/carbon-relay-ng/route"
+)
+
+// VerifRawConfig returns the slices of the currently published table
+// configuration themselves (not copies), exactly as a concurrent Dispatch
+// that has just loaded the configuration holds them.  Verification builds
+// only (C18: a loaded snapshot must never change).
+func (table *Table) VerifRawConfig() (routes []route.Route, blacklist []*matcher.Matcher, rewriters []rewriter.RW, aggregators []*aggregator.Aggregator) {
+	conf := table.config.Load().(TableConfig)
+	return conf.routes, conf.blacklist, conf.rewriters, conf.aggregators
+}
